@@ -6,6 +6,7 @@ Require Import SDS.Model.Mach SDS.Model.Bits SDS.Model.Raw SDS.Model.IntVec SDS.
 Require Import SDS.Spec.Stream SDS.Spec.BitSeq SDS.Check.Common.
 Require Import SDS.Model.Writer SDS.Model.WriterFail.
 Require Export SDS.Model.Ser SDS.Check.SerCommon.
+Require Export SDS.Check.SerWM.   (* WMCore / WaveletMatrix: the CTruncW / CSinkW cases *)
 Import ListNotations.
 Open Scope N_scope.
 
@@ -20,6 +21,9 @@ Inductive case :=
 (* serialize into a sink that accepts b bytes, b = 0 .. size-1. kind 0: the sink then fails with its own error;
    kind 1: a `&mut [u8]` of b bytes (WriteZero). prefix_ok: the sink received exactly the first b bytes, every b *)
 | CSink (path : N) (dbg : bool) (t : ty) (r : recipe) (elems : list N) (kind : N) (outcomes : list (N * N)) (prefix_ok : bool)
+(* the same two for WMCore::from(V) / WaveletMatrix::from(V) (Check/SerWM.v) *)
+| CTruncW (path : N) (dbg : bool) (t : wty) (V : list N) (elems : list N) (outcomes : list (N * N))
+| CSinkW (path : N) (dbg : bool) (t : wty) (V : list N) (elems : list N) (kind : N) (outcomes : list (N * N)) (prefix_ok : bool)
 (* One session of a real buffered file writer over a file that cannot take everything.
    sk = 0: RLIMIT_FSIZE = L bytes (SIGXFSZ ignored) on a regular file; sk = 1: the file is /dev/full (L unused).
    RawVectorWriter::with_buf_len(file, [], bl) then the pushes [ops] one by one / IntVectorWriter::with_buf_len(file,
@@ -146,6 +150,24 @@ Definition check (c : case) : N :=
                           (sampled LIMIT STRIDE total) 0 obs
         | None => false
         end in
+      let s_ok := (lenN obs =? total) && forallb code_is_err obs && prefix_ok in
+      code m_ok s_ok
+  | CTruncW path dbg t V elems outcomes =>
+      let bytes := stream elems [] in
+      let obs := rle_expand outcomes in
+      let total := lenN bytes in
+      let m_ok := SerWM.trunc_ok (sp_of path) (mode_of dbg) t V bytes (sampled LIMIT STRIDE total) obs in
+      let s_ok := (lenN obs =? total) && forallb code_is_err obs in
+      code m_ok s_ok
+  | CSinkW path dbg t V elems kind outcomes prefix_ok =>
+      let bytes := stream elems [] in
+      let obs := rle_expand outcomes in
+      let total := lenN bytes in
+      let err := if kind =? 0 then OtherErr else WriteZero in
+      let m_ok :=
+        SerWM.enc_ok (sp_of path) (mode_of dbg) t V bytes
+        && agree_from (fun b => io_code (snd (write_seq [bytes] (mksink [] b err))))
+                      (sampled LIMIT STRIDE total) 0 obs in
       let s_ok := (lenN obs =? total) && forallb code_is_err obs && prefix_ok in
       code m_ok s_ok
   | CWRaw dbg sk L bl ops mem created panic close open len file =>
